@@ -310,6 +310,9 @@ def run_property(prop, rules, level, explanation, assumptions, tier, all_targets
         R.count("selftest_patches", st["patches"])
         R.count("selftest_caught", len(st["caught"]))
         R.count("selftest_missed", len(st["missed"]))
+        R.count("selftest_benign_patches", st.get("benign_patches", 0))
+        R.count("selftest_benign_silent", st.get("benign_silent", 0))
+        R.count("selftest_false_alarms", len(st.get("false_alarms", [])))
     return finish(prop, R, level, explanation, assumptions, tier, t0, info, extra_coverage)
 
 
